@@ -21,7 +21,7 @@ func init() {
 			"NOT decided: bit-exact round trip of simple8b/zstd/gorilla/snappy packing for every value sequence (value-level), corrupted (as opposed to truncated) length prefixes that overflow.",
 		Assumptions: append([]string{"K-BOUNDS: decoded length prefixes are non-negative and length arithmetic does not overflow"}, commonAssumptions...),
 		Technique:   "static analysis: constant/mode tables from the typed AST, field-coverage symmetry of codec pairs, error-before-use reachability on go/cfg, symbolic length lower-bound dataflow over the CFG",
-		Rules:       "C07.R1 R2 R3 R4 R5 R6 R7 R8 R9",
+		Rules:       "C07.R1 R2 R3 R4 R5 R6 R7 R8 R9 R10 R11",
 	}
 }
 
@@ -51,6 +51,8 @@ func c07(c *an.Ctx) {
 	c07grow(c)
 	c07onerow(c)
 	c07bitmapWindow(c)
+	noCopyViews(c, "C07.R10")
+	c07metaBlockStart(c) // a decoded record must not alias the (pooled, re-used) receive buffer
 }
 
 // constsIn returns the family constants referenced in the function; when
@@ -1283,4 +1285,66 @@ func c07bitmapWindow(c *an.Ctx) {
 	}
 	r.AddSites(n)
 	r.Floor(300, "functions of engine/immutable scanned")
+}
+
+// ---------------------------------------------------------------------- R11
+
+// c07metaBlockStart: a data file stores its chunk metadata in blocks; the meta index records
+// where a block starts (mIndex.offset) and, per series, the offset of its chunk meta RELATIVE
+// TO THE BLOCK (cmOffset, accumulated in currentCMOffset).  The three file writers (MsBuilder,
+// stream compaction, stream down-sampling) start a block the same way: the block offset is
+// taken from the writer and the running offset goes back to 0.  A writer that forgets the
+// reset writes offsets relative to the first block — per-series lookups in every later block
+// read garbage or run out of bounds.
+func c07metaBlockStart(c *an.Ctx) {
+	const I = "engine/immutable"
+	r := c.Rule("C07.R11", "K-SIBLING", I+": every writer that starts a chunk-meta block (mIndex.offset = <writer>.ChunkMetaSize()) resets the running chunk-meta offset (currentCMOffset = 0) with it")
+	off := obj(r, I+":MetaIndex.offset")
+	if off == nil {
+		return
+	}
+	n := 0
+	for _, d := range c.P.AllDecls() {
+		if !an.InPkg(d, I) {
+			continue
+		}
+		f := c.P.Fn(d)
+		if f == nil {
+			continue
+		}
+		starts := f.Find(an.MStore("mIndex.offset = <writer>.ChunkMetaSize()", off, func(g *an.Fn, e ast.Expr) bool {
+			ce, ok := ast.Unparen(e).(*ast.CallExpr)
+			if !ok {
+				return false
+			}
+			sel, ok := ce.Fun.(*ast.SelectorExpr)
+			return ok && sel.Sel.Name == "ChunkMetaSize"
+		}))
+		if starts.Len() == 0 {
+			continue
+		}
+		n += starts.Len()
+		resets := f.Find(an.MNode("currentCMOffset = 0", func(g *an.Fn, m ast.Node) bool {
+			as, ok := m.(*ast.AssignStmt)
+			if !ok || len(as.Lhs) != 1 || len(as.Rhs) != 1 {
+				return false
+			}
+			sel, ok := ast.Unparen(as.Lhs[0]).(*ast.SelectorExpr)
+			if !ok || sel.Sel.Name != "currentCMOffset" {
+				return false
+			}
+			tv, ok := g.Info.Types[as.Rhs[0]]
+			return ok && tv.Value != nil && tv.Value.String() == "0"
+		}))
+		for _, s := range starts.List {
+			cut := resets.Vs()
+			after := len(cut) > 0 && f.FPath(f.G.Vs[s.V].Succ, f.G.Exit, cut, nil) == nil
+			before := len(cut) > 0 && f.FPath([]int{f.G.Entry}, s.V, cut, nil) == nil
+			if !after && !before {
+				r.Fail(d.Name()+": block started without resetting the running offset", c.P.Pos(s.Node.Pos()), "%s starts a new chunk-meta block but does not reset currentCMOffset on every path: the per-series offsets of the block are written relative to an earlier block", d.Name())
+			}
+		}
+	}
+	r.AddSites(n)
+	r.Floor(3, "chunk-meta block starts")
 }
